@@ -329,7 +329,25 @@ func checkC08(c *Ctx) error {
 			_ = work.WriteFile(filepath.Join(parent, "go.mod"), []byte("module parentmod\n\ngo 1.21\n"))
 		}
 		dir := filepath.Join(parent, fmt.Sprintf("cwd%d", j.k))
-		for _, f := range g.files {
+		// every seventh run gets its last file (where there are at least two) through a named pipe fed in pieces: how the bytes of an
+		// input arrive is no input
+		var pipe *work.Fifo
+		for fi, f := range g.files {
+			named := 0
+			for _, p := range g.pats {
+				if p == f.Name {
+					named++
+				} else if strings.ContainsAny(p, "*?[") {
+					named += 2 // a wildcard may match the file once more: a pipe can be read only once
+				}
+			}
+			if j.k%7 == 5 && fi == len(g.files)-1 && fi > 0 && named == 1 {
+				_ = os.MkdirAll(filepath.Dir(filepath.Join(dir, f.Name)), 0o755)
+				if p, err := work.FeedFifo(filepath.Join(dir, f.Name), []byte(f.Content)); err == nil {
+					pipe = p
+					continue
+				}
+			}
 			_ = work.WriteFile(filepath.Join(dir, f.Name), []byte(f.Content))
 		}
 		args := []string{"build"}
@@ -374,6 +392,13 @@ func checkC08(c *Ctx) error {
 		}
 		bin := bins[j.k%len(bins)]
 		res := work.Run(bin, dir, envFor(j.k, dir), 120*time.Second, nil, args...)
+		if pipe != nil {
+			if op, all := pipe.Stop(); op && all {
+				c.Add("runs_with_an_input_read_from_a_pipe", 1)
+			} else {
+				c.Add("runs_with_a_pipe_the_tool_did_not_read_completely", 1)
+			}
+		}
 		o := obs{exit: res.Exit, stdout: res.Stdout}
 		if b, err := os.ReadFile(filepath.Join(dir, "out.go")); err == nil && res.Exit == 0 {
 			// a failing run generates nothing (what it leaves at the path is C10's subject)
